@@ -184,6 +184,7 @@ class Program:
         self.used = {}           # FnDef.qualname -> FnDef actually executed (for evidence)
         self.stubs = {}          # qualname -> python callable(interp, args) overriding a fn
         self.derives = {}        # type -> set(derive names)
+        self.file_globs = {}     # file path -> {variant name: enum name}  (use Enum::*)
 
     def load(self, paths, root=None, crate='crate'):
         asts = run_astdump(paths)
@@ -195,6 +196,8 @@ class Program:
             rel = os.path.relpath(p, root) if root else os.path.basename(p)
             mod = [crate] + [x for x in rel[:-3].split(os.sep) if x not in ('mod', 'lib', 'src')]
             self._index_items(ast['items'], mod, p, crate)
+        for p in paths:
+            self._index_globs(self.files[p]['items'], p)
 
     def _index_items(self, items, mod, path, crate):
         for it in items:
@@ -241,6 +244,25 @@ class Program:
             elif k == 'Item::Mod':
                 if it['content']['_'] == 'Some':
                     self._index_items(it['content']['0']['1'], mod + [it['ident']['sym']], path, crate)
+
+    def _index_globs(self, items, path):
+        def walk(tree, prefix):
+            k = tree['_']
+            inner = tree.get('0', tree)
+            if k == 'UseTree::Path':
+                walk(inner['tree'], prefix + [inner['ident']['sym']])
+            elif k == 'UseTree::Group':
+                for t in inner['items']:
+                    walk(t, prefix)
+            elif k == 'UseTree::Glob':
+                if prefix and prefix[-1] in self.enums:
+                    en = self.enums[prefix[-1]]
+                    d = self.file_globs.setdefault(path, {})
+                    for v in en['variants']:
+                        d[v['ident']['sym']] = prefix[-1]
+        for it in items:
+            if it['_'] == 'Item::Use':
+                walk(it['tree'], [])
 
     @staticmethod
     def _derives(attrs):
@@ -774,6 +796,10 @@ class Interp:
                     return False
             # a bare identifier may name a unit variant / const; only when such a thing exists
             if pat['by_ref']['_'] == 'None' and pat['mutability']['_'] == 'None' and name[0].isupper():
+                gv = self.glob_variant(name, ctx)
+                if gv is not None:
+                    dv = deref(v)
+                    return isinstance(dv, Enum) and dv.ty == gv and dv.var == name
                 if name == 'None':
                     return V.is_none(deref(v))
                 cv = self.lookup_const_or_variant([name], ctx)
@@ -963,10 +989,19 @@ class Interp:
     def _same_enum(self, a, b):
         return a == b
 
+    def glob_variant(self, name, ctx):
+        if ctx is None or ctx.fn is None:
+            return None
+        g = self.prog.file_globs.get(ctx.fn.file)
+        return g.get(name) if g else None
+
     def resolve_variant(self, segs, ctx):
         """path segments -> (enum type name or None, variant name)"""
         if len(segs) == 1:
             n = segs[0]
+            gv = self.glob_variant(n, ctx)
+            if gv is not None:
+                return (gv, n)
             if n in ('Some', 'None'):
                 return ('Option', n)
             if n in ('Ok', 'Err'):
@@ -1055,6 +1090,9 @@ class Interp:
             en = env.lookup(name)
             if en is not None:
                 return en.vars[name]
+            gv = self.glob_variant(name, ctx)
+            if gv is not None:
+                return self.resolve_path_value(e['path'], [gv, name], env, ctx, hint)
             if name == 'None':
                 return mk_none()
         return self.resolve_path_value(e['path'], segs, env, ctx, hint)
